@@ -23,7 +23,7 @@ def ascii_upper(s):
 
 def gen_config(rng, hostpool):
     r = rng.random()
-    explicit = True if r < 0.35 else None if r < 0.75 else False if r < 0.9 else 'other'
+    explicit = True if r < 0.45 else None if r < 0.8 else False if r < 0.92 else 'other'
     defaults = None
     if rng.random() < 0.65:
         defaults = {}
@@ -49,7 +49,7 @@ def gen_config(rng, hostpool):
             settings = rng.choice([' ', '\n', '\n  ', '\t']).join(pats)
         else:
             settings = pats
-    return {'explicit': explicit, 'defaults': defaults, 'exception_only': rng.random() < 0.15,
+    return {'explicit': explicit, 'defaults': defaults, 'exception_only': rng.random() < 0.1,
             'storage': rng.choice(['session', 'session', 'cookie', 'cookie', 'legacy']), 'settings': settings}
 
 
@@ -94,6 +94,8 @@ def gen_origin(rng, r, others, trusted):
     own = host_of(r)
     dom = own.rsplit(':', 1)[0] if ':' in own and not own.endswith(']') else own
     k = rng.random()
+    if rng.random() < 0.18:
+        k = 0.0
     if k < 0.30:
         o = 'https://' + own
     elif k < 0.36:
@@ -181,10 +183,12 @@ def gen_request(rng, cfg, hostpool, prev):
         stored = ''
     else:
         stored = rng.choice(['t\xf6ken', '\u20acuro', 'snow\u2603', '\U0001f600']) if storage != 'cookie' else 'q~!z'
+    if storage != 'cookie' and rng.random() < 0.01:
+        stored = rng.choice(['\ud800', 'a\udfffb'])      # not encodable: outside the property (wf_tokens), model still checked
     if storage == 'cookie' and stored is not None:
         stored = ''.join(c for c in stored if c in COOKIE_SAFE)
     r['stored'] = stored
-    base = stored if stored else rng.choice(STORED)
+    base = stored if stored and not any(0xD800 <= ord(c) <= 0xDFFF for c in stored) else rng.choice(STORED)
     k = rng.random()
     if k < 0.5:
         sup = base
@@ -276,7 +280,7 @@ def _req(host, origin=None, referer=None, scheme='https', method='POST', header_
             'content_type': 'application/x-www-form-urlencoded', 'stored': stored}
 
 
-def targeted_cases(rng):
+def canonical_cases():
     out = []
     base_cfg = {'explicit': True, 'defaults': None, 'exception_only': False, 'storage': 'session', 'settings': None}
     for storage in ('session', 'cookie', 'legacy'):
@@ -311,6 +315,8 @@ def targeted_cases(rng):
             _req('svc.internal', origin='https://evilexample.com', header_tok=tok)]})
         out.append({'config': cfg, 'caller': None, 'raises': False, 'reqs': [
             _req('a.example.com', origin='http://a.example.com', header_tok=tok)]})
-    for _ in range(400):
-        out.append(gen_case(rng))
     return out
+
+
+def targeted_cases(rng):
+    return canonical_cases() + [gen_case(rng) for _ in range(400)]
